@@ -2,8 +2,11 @@
 //! ordered map with stable entries, ascending `iter()`, double-ended. At most `CAP` keys.
 use core::cell::UnsafeCell;
 
-/// Maximum number of distinct keys.
+/// Maximum number of distinct keys (2 with `--cfg ocv_small`).
+#[cfg(not(ocv_small))]
 pub const CAP: usize = 3;
+#[cfg(ocv_small)]
+pub const CAP: usize = 2;
 /// Scheduling-point site id.
 pub const SITE: u32 = 2;
 
